@@ -229,7 +229,7 @@ def insitu_unit(u):
     st = enum.EnumStats()
     nparts = u["nparts"]
     cluster = {"brokers": [1, 2], "topics": {"t": {str(p): 1 + p % 2 for p in range(nparts)},
-                                             "u": {"0": 1, "1": 2}}}
+                                             "u": {"0": 1, "1": 2}}, "meta_order": u.get("meta_order", "asc")}
     keys = ["k%d" % i for i in range(4)]
     if u["partitioner"] == "rr":
         script = []
@@ -279,7 +279,7 @@ def insitu_unit(u):
                                           s_.key, chosen[s_.i][1], want, nparts),
                                       "input": {"insitu": u}, "check": "checks.C18"})
                 break
-    st.classes.add(_digest(("insitu", u["partitioner"], nparts, u["batched"])))
+    st.classes.add(_digest(("insitu", u["partitioner"], nparts, u["batched"], u.get("meta_order"))))
     st.samples.append({"in_situ": u, "partitions_chosen": [chosen.get(s_.i) for s_ in h.sends][:8]})
     return st
 
@@ -341,8 +341,8 @@ def run(tier, seed, only=None):
         st = enum.run_units("checks.C18:rr_unit", units, seed)
         enum.fold(rep, "round-robin-histories", st)
     if "insitu" in (only or ["insitu"]):
-        units = [{"partitioner": p, "nparts": n, "batched": b} for p in ("rr", "hashed") for n in (1, 2, 3, 5)
-                 for b in (False, True)]
+        units = [{"partitioner": p, "nparts": n, "batched": b, "meta_order": mo} for p in ("rr", "hashed")
+                 for n in (1, 2, 3, 5) for b in (False, True) for mo in ("asc", "reverse", "rotate")]
         st = enum.run_units("checks.C18:insitu_unit", units, seed)
         enum.fold(rep, "producer-in-situ", st)
     rep.coverage["rule"] = (
@@ -350,7 +350,7 @@ def run(tier, seed, only=None):
         "and 781 text keys, pure_murmur2 and HashedPartitioner.partition compared with Kafka's Utils.murmur2 run on "
         "the JVM; rr: every sequence of partition() calls of the stated depth over the lists %r with every pair of "
         "randint answers when randomStart is on; in situ: the real Producer+KafkaClient on the virtual cluster with 1/2/3/5 "
-        "partitions, batched and unbatched, round-robin (with sends to a second topic interleaved) and hashed.  Distinct non-trivial = distinct (len%%4, first byte, last byte, "
+        "partitions listed by the broker in ascending, reverse and rotated order, batched and unbatched, round-robin (with sends to a second topic interleaved) and hashed.  Distinct non-trivial = distinct (len%%4, first byte, last byte, "
         "hash low bits) classes for keys, distinct histories containing at least one list change for round robin."
         % (maxlen, ALPHA.hex(), RR_LISTS))
     rep.assumptions = [
